@@ -90,6 +90,11 @@ class TComp(fm.TimeComponent):
                 self.inputs.add(io=fm.CallbackInput(callback=self._notified, name=f"i{i}", time=self.time,
                                                     grid=fm.NoGrid(), units=None, **ispec.get("meta", {})))
                 continue
+            if self.spec.get("lazyin"):
+                # "lazyin": the input is declared without metadata; the requested info is handed to the FIRST try_connect
+                # call only (ConnectHelper documents that it keeps what could not be exchanged yet for the later calls)
+                self.inputs.add(name=f"i{i}")
+                continue
             self.inputs.add(name=f"i{i}", time=self.time, grid=fm.NoGrid(), units=None, **ispec.get("meta", {}))
         for o in range(self.spec["nout"]):
             if self.spec.get("lazytime"):
@@ -126,7 +131,13 @@ class TComp(fm.TimeComponent):
                 push = {}
             else:
                 self.init_sum = sum(fin.scalar_of(v) for v in self.connector.in_data.values())
-        self.try_connect(start_time, push_infos=infos, push_data=push)
+        ex = {}
+        if self.spec.get("lazyin") and not getattr(self, "_ex_sent", False):
+            self._ex_sent = True
+            tt = self.time if self.time is not None else T(self.spec["start"])
+            ex = {f"i{i}": fm.Info(time=tt, grid=fm.NoGrid(), units=None, **ispec.get("meta", {}))
+                  for i, ispec in enumerate(self.spec["inputs"]) if not ispec.get("cbin")}
+        self.try_connect(start_time, push_infos=infos, push_data=push, exchange_infos=ex)
 
     def _validate(self):
         self.calls.append("V")
